@@ -1,4 +1,5 @@
 import BeyondVerif.Model.FormsF
+import BeyondVerif.Model.SVMachineF
 import BeyondVerif.Drv.Util
 namespace BeyondVerif.Drv.C01
 open BeyondVerif BeyondVerif.Drv BeyondVerif.F
@@ -6,7 +7,59 @@ open BeyondVerif BeyondVerif.Drv BeyondVerif.F
 /-- `form <method name> <mu> <c0..c5>` → six floats (one edge; `fuel` if the Kepler loop does not end within 10⁴ iterations)
     `walk <mu> <c0..c5> <method names…>` → six floats (a chain of edges)
     `m2e <e> <M>` → one float | `fuel`
-    `infos <mu> <r> <a> <e> <nu>` → 13 floats -/
+    `infos <mu> <r> <a> <e> <nu>` → 13 floats
+    `hist <form> <frame id> <mu> <c0..c5> <op>…` → the object of Model/SVMachine driven through a history of in-place operations:
+      `seti i v` | `setn name v` | `muls lo hi k` | `adds lo hi k` | `sets lo n v1..vn` | `form name` | `frame id mu <36 matrix entries by rows> <6 offsets>` |
+      `copy 0|1 [id mu <42>] 0|1 [name]` | `infos`;
+      reply: one segment per operation joined by `|`: `D|A|U <six numbers>` (done / AttributeError / UnknownFormError) or `I <six numbers> <14 infos values>`;
+      a conversion that runs out of fuel ends the reply with `fuel`, an unreadable operation with `bad-op` -/
+def parseAffine (fs : List Float) : SV.Affine :=
+  ⟨(List.range 6).map (fun i => (fs.drop (6 * i)).take 6), (fs.drop 36).take 6⟩
+
+def parseOp : List String → Option (SV.Op × List String)
+  | "seti" :: i :: v :: rest => do pure (.setIdx (← i.toNat?) (← fOfStr? v), rest)
+  | "setn" :: n :: v :: rest => do pure (.setName n (← fOfStr? v), rest)
+  | "muls" :: lo :: hi :: k :: rest => do pure (.mulSlice (← lo.toNat?) (← hi.toNat?) (← fOfStr? k), rest)
+  | "adds" :: lo :: hi :: k :: rest => do pure (.addSlice (← lo.toNat?) (← hi.toNat?) (← fOfStr? k), rest)
+  | "sets" :: lo :: n :: rest => do
+    let n ← n.toNat?
+    let (vs, rest) ← takeFloats n rest
+    pure (.setSlice (← lo.toNat?) vs, rest)
+  | "form" :: n :: rest => some (.setForm n, rest)
+  | "frame" :: id :: rest => do
+    let (fs, rest) ← takeFloats 43 rest
+    pure (.setFrame (← id.toNat?) (fs.headD 0) (parseAffine fs.tail), rest)
+  | "copy" :: rest => do
+    let (fr, rest) ← match rest with
+      | "0" :: rest => some (none, rest)
+      | "1" :: id :: rest => do
+        let (fs, rest) ← takeFloats 43 rest
+        pure (some ((← id.toNat?), fs.headD 0, parseAffine fs.tail), rest)
+      | _ => none
+    match rest with
+    | "0" :: rest => pure (.copyTo fr none, rest)
+    | "1" :: n :: rest => pure (.copyTo fr (some n), rest)
+    | _ => none
+  | "infos" :: rest => some (.infos, rest)
+  | _ => none
+
+def histLoop : Nat → SV.St → List String → List String → String
+  | 0, _, _, acc => joinWith " | " (acc.reverse ++ ["bad-op"])
+  | _, _, [], acc => joinWith " | " acc.reverse
+  | n + 1, s, toks, acc =>
+    match parseOp toks with
+    | none => joinWith " | " (acc.reverse ++ ["bad-op"])
+    | some (op, rest) =>
+      match SV.applyOp 10000 s op with
+      | none => joinWith " | " (acc.reverse ++ ["fuel"])
+      | some (s', o) =>
+        let seg := match o with
+          | .done => "D " ++ fsToStr s'.c
+          | .attrError => "A " ++ fsToStr s'.c
+          | .unknownForm => "U " ++ fsToStr s'.c
+          | .infos xs => "I " ++ fsToStr s'.c ++ " " ++ fsToStr xs
+        histLoop n s' rest (seg :: acc)
+
 def handle : List String → Option String
   | "form" :: name :: rest => some <|
     match takeFloats 7 rest with
@@ -33,6 +86,10 @@ def handle : List String → Option String
     match takeFloats 5 rest with
     | some ([mu, r, a, e, nu], _) => fsToStr (infosAll mu r a e nu)
     | _ => "bad-op"
+  | "hist" :: form :: fr :: rest => some <|
+    match fr.toNat?, takeFloats 7 rest with
+    | some fr, some (mu :: c, ops) => histLoop (ops.length + 1) ⟨c, form, fr, mu, none⟩ ops []
+    | _, _ => "bad-op"
   | _ => none
 
 end BeyondVerif.Drv.C01
